@@ -101,6 +101,47 @@ func constructed(k int) *ir.Module {
 	return m
 }
 
+// failedPrints: every documented way a print can FAIL (panic or error), recovered by the caller as a user would. A failed print must leave no
+// shared state behind (a scratch buffer handed back twice, a half-written cache) that later or concurrent prints of healthy modules can observe.
+func failedPrints(k int) {
+	try := func(f func()) {
+		defer func() { _ = recover() }()
+		f()
+	}
+	// (1) a block under construction (no terminator yet)
+	m := ir.NewModule()
+	f := m.NewFunc("broken", types.I32, ir.NewParam("", types.I32))
+	b := f.NewBlock("")
+	b.NewAdd(f.Params[0], constant.NewInt(types.I32, int64(k)))
+	try(func() { _ = b.LLString() })
+	try(func() { _ = f.LLString() })
+	try(func() { _ = m.String() })
+	try(func() { var buf bytes.Buffer; _, _ = m.WriteTo(&buf) })
+	// (2) stale explicit IDs (an unnamed value inserted before a numbered one after a print)
+	m2 := constructed(k)
+	_ = m2.String()
+	f2 := m2.Funcs[0]
+	extra := ir.NewAdd(f2.Params[0], f2.Params[1])
+	f2.Blocks[0].Insts = append([]ir.Instruction{extra}, f2.Blocks[0].Insts...)
+	try(func() { _ = m2.String() })
+	try(func() { _ = f2.LLString() })
+	// (3) a writer that fails half way
+	m3 := constructed(k)
+	try(func() { _, _ = m3.WriteTo(&failingWriter{left: 40 + 13*k}) })
+}
+
+type failingWriter struct{ left int }
+
+func (w *failingWriter) Write(p []byte) (int, error) {
+	if len(p) > w.left {
+		n := w.left
+		w.left = 0
+		return n, fmt.Errorf("disk full")
+	}
+	w.left -= len(p)
+	return len(p), nil
+}
+
 func main() {
 	g, _ := strconv.Atoi(os.Args[1])
 	rounds, _ := strconv.Atoi(os.Args[2])
@@ -108,6 +149,16 @@ func main() {
 	files := os.Args[4:]
 	bad := 0
 	for r := 0; r < rounds; r++ {
+		// failed prints first (sequentially, then from several goroutines at once), healthy concurrent prints afterwards
+		for k := 0; k < 3; k++ {
+			failedPrints(k)
+		}
+		var fw sync.WaitGroup
+		for k := 0; k < 4; k++ {
+			fw.Add(1)
+			go func(k int) { defer fw.Done(); failedPrints(k) }(k)
+		}
+		fw.Wait()
 		for _, fn := range files {
 			ref, err := asm.ParseFile(fn)
 			if err != nil {
